@@ -8,13 +8,17 @@
    also says they never panic; for shape helpers under the validator's precondition; for element generators: one
    call of the closure moves the multi-index state exactly like the model's odometer ([incr], [incr_skip], [bstep]),
    and the statements outside the integer fragment are pinned as text in source order ([itemShape]).
-   An edit of one of these Go functions changes GoFns.v and breaks the theorem unless it computes the same thing.
+   The DATA layer (functions over `any`: float64 leaves and []any rows, recursive closures with pointer
+   parameters) is translated into DataIR programs (Model/DataIR.v, Model/GoData.v, regenerated every run); the
+   [data_*] / [drun_*] theorems say that running them returns exactly the model's nested data (Model/Data.v,
+   Model/Fill.v) and panics exactly where the model says None.
+   An edit of one of these Go functions changes GoFns.v / GoData.v and breaks the theorem unless it computes the same thing.
    Closed under the global context. *)
 From Coq Require Import String List ZArith Bool Arith.
-From Qeep Require Import Model.Nd Model.Fill Model.Valid Model.GoIR.
-From Qeep Require Model.Data Model.GoFns.
+From Qeep Require Import Model.Scalar Model.Nd Model.Fill Model.Valid Model.GoIR Model.DataIR.
+From Qeep Require Model.Data Model.Api Model.GoFns Model.GoData.
 From Qeep Require Import Proofs.GoIRP.
-From Qeep Require Proofs.GoValidAtP Proofs.GoValidP1 Proofs.GoValidP2 Proofs.GoValidP3 Proofs.GoDimsP1 Proofs.GoDimsP2 Proofs.GoGenP1 Proofs.GoGenP2 Proofs.GoGenP3.
+From Qeep Require Proofs.GoValidAtP Proofs.GoValidP1 Proofs.GoValidP2 Proofs.GoValidP3 Proofs.GoDimsP1 Proofs.GoDimsP2 Proofs.GoGenP1 Proofs.GoGenP2 Proofs.GoGenP3 Proofs.GoMatMulShapeP Proofs.DataAtP Proofs.DataSliceP Proofs.DataPatchP Proofs.DataApplyP Proofs.DataReduceP Proofs.DataFillP Proofs.DataLinalgP Proofs.DataConcatP.
 Import ListNotations.
 Local Open Scope string_scope.
 
@@ -229,3 +233,99 @@ Theorem matMulGenerator_step_is_incr :
     (forall y : string, y <> "state" -> y <> "i" -> lookup e' y = lookup e y).
 Proof. exact @GoGenP1.go_linearLast2DimsMatMulElemGenerator_step. Qed.
 Print Assumptions matMulGenerator_step_is_incr.
+
+Theorem dotProductOf1DInputs_program_is_dot1d :
+  forall (A : Type) (SA : Scalar A) (fapp : string -> list A -> option A) (St : Type)
+    (ext : string -> list dval -> St -> option (list dval * St)) (fuel depth : nat) 
+    (a b : nd A) (s : St),
+  sconst 0 0 = s0 ->
+  S (DataLinalgP.ndlen a) <= fuel ->
+  match Data.dot1d a b with
+  | Some r =>
+      exists g l : denv,
+        drun fapp St ext GoData.d_dotProductOf1DInputs fuel depth [emb a; emb b] s =
+        DRet St [emb r] s g l
+  | None => drun fapp St ext GoData.d_dotProductOf1DInputs fuel depth [emb a; emb b] s = DPanic St
+  end.
+Proof. exact @DataLinalgP.drun_dot1d. Qed.
+Print Assumptions dotProductOf1DInputs_program_is_dot1d.
+
+Theorem matMulDataOf2DInputs_program_is_matmul2d :
+  forall (A : Type) (SA : Scalar A) (fapp : string -> list A -> option A) (St : Type)
+    (ext : string -> list dval -> St -> option (list dval * St)) (fuel depth : nat) 
+    (a b : nd A) (s : St),
+  sconst 0 0 = s0 ->
+  S (Nat.max (DataLinalgP.ndlen a) (Nat.max (DataLinalgP.ndlen0 a) (DataLinalgP.ndlen0 b))) <= fuel ->
+  match Data.matmul2d a b with
+  | Some r =>
+      exists g l : denv,
+        drun fapp St ext GoData.d_matMulDataOf2DInputs fuel depth [emb a; emb b] s =
+        DRet St [emb r] s g l
+  | None => drun fapp St ext GoData.d_matMulDataOf2DInputs fuel depth [emb a; emb b] s = DPanic St
+  end.
+Proof. exact @DataLinalgP.drun_matmul2d. Qed.
+Print Assumptions matMulDataOf2DInputs_program_is_matmul2d.
+
+Theorem broadcastForMatMul_shape :
+  itemShape GoFns.broadcastForMatMul_outer =
+  [None; Some "t1, err := ct1.Broadcast(shape)"; Some "if err != nil { return }"; None;
+   Some "t2, err := ct2.Broadcast(shape)"; Some "if err != nil { return }";
+   Some "bct1 = t1.(*CPUTensor)"; Some "bct2 = t2.(*CPUTensor)"; Some "return bct1, bct2, nil"].
+Proof. exact @GoMatMulShapeP.broadcastForMatMul_outer_shape. Qed.
+Print Assumptions broadcastForMatMul_shape.
+
+Theorem broadcastForMatMul_code :
+  codeOf GoFns.broadcastForMatMul_outer = [GoMatMulShapeP.mm_c1; GoMatMulShapeP.mm_c2].
+Proof. exact @GoMatMulShapeP.broadcastForMatMul_outer_code. Qed.
+Print Assumptions broadcastForMatMul_code.
+
+Theorem broadcastForMatMul_first_target_shape :
+  forall (fuel d : nat) (d1 d2 : list nat) (e : env),
+  2 <= Datatypes.length d1 ->
+  2 <= Datatypes.length d2 ->
+  S (Nat.max (Datatypes.length d1) (Datatypes.length d2)) <= fuel ->
+  lookup e "ct1.dims" = Some (nats d1) ->
+  lookup e "ct2.dims" = Some (nats d2) ->
+  exists e' : env,
+    exec (callD GoFns.ftab fuel (S d)) fuel GoMatMulShapeP.mm_c1 e = ONormal e' /\
+    lookup e' "shape" = Some (nats (Api.mmShape (Data.targetBroadcastDims d1 d2) d1)) /\
+    lookup e' "ct1.dims" = Some (nats d1) /\
+    lookup e' "ct2.dims" = Some (nats d2) /\
+    lookup e' "lt" = Some (VI (Z.of_nat (Datatypes.length (Data.targetBroadcastDims d1 d2)))) /\
+    lookup e' "l1" = Some (VI (Z.of_nat (Datatypes.length d1))) /\
+    lookup e' "l2" = Some (VI (Z.of_nat (Datatypes.length d2))) /\
+    (forall x : string, x <> "shape" -> x <> "lt" -> x <> "l1" -> x <> "l2" -> lookup e' x = lookup e x).
+Proof. exact @GoMatMulShapeP.go_broadcastForMatMul_first_shape. Qed.
+Print Assumptions broadcastForMatMul_first_target_shape.
+
+Theorem broadcastForMatMul_second_target_shape :
+  forall (call : string -> list val -> outcome) (fuel : nat) (d1 d2 : list nat) (e : env),
+  2 <= Datatypes.length d1 ->
+  2 <= Datatypes.length d2 ->
+  lookup e "ct2.dims" = Some (nats d2) ->
+  lookup e "shape" = Some (nats (Api.mmShape (Data.targetBroadcastDims d1 d2) d1)) ->
+  lookup e "lt" = Some (VI (Z.of_nat (Datatypes.length (Data.targetBroadcastDims d1 d2)))) ->
+  lookup e "l2" = Some (VI (Z.of_nat (Datatypes.length d2))) ->
+  exists e' : env,
+    exec call fuel GoMatMulShapeP.mm_c2 e = ONormal e' /\
+    lookup e' "shape" = Some (nats (Api.mmShape (Data.targetBroadcastDims d1 d2) d2)) /\
+    (forall x : string, x <> "shape" -> lookup e' x = lookup e x).
+Proof. exact @GoMatMulShapeP.go_broadcastForMatMul_second_shape. Qed.
+Print Assumptions broadcastForMatMul_second_target_shape.
+
+Theorem dataAt_program_is_dataAt :
+  forall (A : Type) (SA : Scalar A) (fapp : string -> list A -> option A) (St : Type)
+    (ext : string -> list dval -> St -> option (list dval * St))
+    (callL : string -> list dval -> St -> denv -> cres St) (fuel : nat) (ds : dval) 
+    (x : nd A) (idx : list nat) (s : St),
+  match dataAt x idx with
+  | Some y =>
+      exists g l : denv,
+        dexec fapp St ext callL fuel true (dbody (pmain GoData.d_dataAt)) s
+          [("t.dims", ds); ("t.data", emb x); ("index", dnats idx)] [] = DRet St [emb y] s g l
+  | None =>
+      dexec fapp St ext callL fuel true (dbody (pmain GoData.d_dataAt)) s
+        [("t.dims", ds); ("t.data", emb x); ("index", dnats idx)] [] = DPanic St
+  end.
+Proof. exact @DataAtP.data_dataAt. Qed.
+Print Assumptions dataAt_program_is_dataAt.
